@@ -1,4 +1,5 @@
 import SageModel.Model.C06
+import SageModel.Model.C06Db
 import Mathlib.Algebra.Order.Field.Rat
 import Mathlib.Tactic.Ring
 import Mathlib.Tactic.Linarith
@@ -2326,6 +2327,111 @@ example : (∀ m : Rat, (m = 16 ∨ m = 42 ∨ m = -17) → 93 ∉ exampleFmt m)
   constructor
   · rintro m (rfl | rfl | rfl) <;> decide +kernel
   · rintro m m' (rfl | rfl | rfl) (rfl | rfl | rfl) <;> first | (intro; rfl) | (intro h; revert h; decide +kernel)
+
+
+
+
+/-! ### `group_digests`: protein attribution respects the position -/
+
+/-- every protein a group lists has the group's peptide at the group's position -/
+def Group.Justified (occs : List Occ) (g : Group) : Prop :=
+  ∀ p ∈ g.prots, ∃ o ∈ occs, o.pos = g.pos ∧ o.seq = g.seq ∧ o.prot = p
+
+theorem groupLoop_justified (occs : List Occ) (cur : Group) (ds : List Occ)
+    (hcur : cur.Justified occs) (hds : ∀ d ∈ ds, d ∈ occs) :
+    ∀ g ∈ groupLoop cur ds, g.Justified occs := by
+  induction ds generalizing cur with
+  | nil => intro g hg; simp only [groupLoop, List.mem_singleton] at hg; subst hg; exact hcur
+  | cons d ds ih =>
+    intro g hg
+    simp only [groupLoop] at hg
+    split at hg
+    · rename_i h
+      simp only [Bool.and_eq_true, beq_iff_eq] at h
+      refine ih _ ?_ (fun d' hd' => hds d' (List.mem_cons_of_mem _ hd')) g hg
+      intro p hp
+      simp only [List.mem_append, List.mem_singleton] at hp
+      rcases hp with hp | rfl
+      · exact hcur p hp
+      · exact ⟨d, hds d (by simp), h.1, h.2, rfl⟩
+    · rcases List.mem_cons.mp hg with rfl | hg
+      · exact hcur
+      · refine ih _ ?_ (fun d' hd' => hds d' (List.mem_cons_of_mem _ hd')) g hg
+        intro p hp
+        simp only [List.mem_singleton] at hp
+        subst hp
+        exact ⟨d, hds d (by simp), rfl, rfl, rfl⟩
+
+/-- every digest lands in a group of its own position and sequence -/
+theorem groupLoop_covers (cur : Group) (ds : List Occ) :
+    (∀ p ∈ cur.prots, ∃ g ∈ groupLoop cur ds, g.pos = cur.pos ∧ g.seq = cur.seq ∧ p ∈ g.prots) ∧
+    ∀ d ∈ ds, ∃ g ∈ groupLoop cur ds, g.pos = d.pos ∧ g.seq = d.seq ∧ d.prot ∈ g.prots := by
+  induction ds generalizing cur with
+  | nil =>
+    refine ⟨fun p hp => ⟨cur, by simp [groupLoop], rfl, rfl, hp⟩, by simp⟩
+  | cons d ds ih =>
+    simp only [groupLoop]
+    split
+    · rename_i h
+      simp only [Bool.and_eq_true, beq_iff_eq] at h
+      obtain ⟨i1, i2⟩ := ih { cur with prots := cur.prots ++ [d.prot] }
+      refine ⟨fun p hp => i1 p (by simp [hp]), ?_⟩
+      intro d' hd'
+      rcases List.mem_cons.mp hd' with rfl | hd'
+      · obtain ⟨g, hg, h1, h2, h3⟩ := i1 d'.prot (by simp)
+        exact ⟨g, hg, by simpa [h.1] using h1, by simpa [h.2] using h2, h3⟩
+      · exact i2 d' hd'
+    · obtain ⟨i1, i2⟩ := ih { pos := d.pos, seq := d.seq, prots := [d.prot] }
+      refine ⟨fun p hp => ⟨cur, by simp, rfl, rfl, hp⟩, ?_⟩
+      intro d' hd'
+      rcases List.mem_cons.mp hd' with rfl | hd'
+      · obtain ⟨g, hg, h1, h2, h3⟩ := i1 d'.prot (by simp)
+        exact ⟨g, List.mem_cons_of_mem _ hg, h1, h2, h3⟩
+      · obtain ⟨g, hg, h⟩ := i2 d' hd'
+        exact ⟨g, List.mem_cons_of_mem _ hg, h⟩
+
+theorem insertKey_perm {β : Type} (le : β → β → Bool) (x : β) (l : List β) : (insertKey le x l).Perm (x :: l) := by
+  induction l with
+  | nil => exact List.Perm.refl _
+  | cons y ys ih =>
+    simp only [insertKey]
+    split
+    · exact List.Perm.refl _
+    · exact (List.Perm.cons y ih).trans (List.Perm.swap x y ys)
+
+theorem sortKey_perm {β : Type} (le : β → β → Bool) (l : List β) : (sortKey le l).Perm l := by
+  induction l with
+  | nil => exact List.Perm.refl _
+  | cons x xs ih => exact (insertKey_perm le x _).trans (List.Perm.cons x ih)
+
+/-- **C06.groupDigests_attribution** — `group_digests` as coded (grouping on position AND sequence):
+    a group lists a protein only if that protein has the group's peptide at the group's position,
+    and every digest of every protein is in a group of its own position and sequence. Hence each
+    occurrence is modified with its true position (`[`/`]` specificity per protein). -/
+theorem groupDigests_attribution (occs : List Occ) (gs : List Group) (h : groupDigests occs = some gs) :
+    (∀ g ∈ gs, g.Justified occs) ∧
+    ∀ d ∈ occs, ∃ g ∈ gs, g.pos = d.pos ∧ g.seq = d.seq ∧ d.prot ∈ g.prots := by
+  unfold groupDigests at h
+  have hperm := sortKey_perm (fun a b => keyLe (occKey a) (occKey b)) occs
+  split at h
+  · simp at h
+  · rename_i d0 rest hs
+    simp only [Option.some.injEq] at h
+    subst h
+    rw [hs] at hperm
+    constructor
+    · exact groupLoop_justified occs _ _ (by intro p hp; simp at hp) (fun d hd => hperm.subset hd)
+    · intro d hd
+      exact (groupLoop_covers _ _).2 d (hperm.symm.subset hd)
+
+/-- non-vacuity: `MCSK` N-terminal in protein 0 and C-terminal in protein 1 stays two groups even though
+    the two digests are adjacent in the sort (last of the N-terminal block, first of the C-terminal one) -/
+example : (groupDigests
+    [⟨.nterm, [77, 67, 83, 75], false, 0, 0⟩, ⟨.cterm, [89, 71], false, 0, 0⟩,
+     ⟨.nterm, [65, 75], false, 0, 1⟩, ⟨.cterm, [77, 67, 83, 75], false, 0, 1⟩]).map
+      (fun gs => gs.map fun g => (posRank g.pos, g.seq, g.prots)) =
+    some [(0, [65, 75], [1]), (0, [77, 67, 83, 75], [0]), (1, [77, 67, 83, 75], [1]), (1, [89, 71], [0])] := by
+  decide +kernel
 
 
 end Sage.C06
